@@ -1,7 +1,7 @@
 // Package c19: source layout does not change meaning; diagnostics follow the text.
 //
 // Base programs are token lists (progs.go): the position of every token in every variant is
-// known by construction. Variants insert one trivia of an 11-letter alphabet into one gap
+// known by construction. Variants insert one trivia of an 16-letter alphabet into one gap
 // (every gap x every trivia), the same trivia into ALL gaps at once, and (thorough) every pair
 // of single insertions for a subset of small programs. Each variant is compiled by the real
 // front end (fe pool, Mode "il": verdict + diagnostics + QBE IL of accepted programs) and
@@ -82,6 +82,13 @@ var alphabet = []trivia{
 	{"block2", "/* a\nb */", false},
 	{"docabove", "\n/// doc\n", false},
 	{"trail", " // c\n", true},
+	// comments whose text is not ASCII (columns count characters), and the block-comment
+	// spellings with stars next to the delimiters
+	{"blocku", "/* \u00e9\u00fc */", false},
+	{"lineu", "// \u00e9\n", false},
+	{"blockstars", "/** c **/", false},
+	{"blockempty", "/**/", false},
+	{"block3", "/***/", false},
 }
 
 // ins maps a gap index to the trivia inserted there (in order).
@@ -171,6 +178,9 @@ func (l *laid) positions() [3][]lc {
 				p.col += 4
 				prevTab = true
 			default:
+				if ch&0xC0 == 0x80 {
+					break // a continuation byte of a UTF-8 sequence: columns count characters
+				}
 				if m == 0 || !prevTab {
 					p.col++
 				}
@@ -853,7 +863,7 @@ func Run(c *vl.Ctx) {
 		"comments never contain @extern; programs are ASCII",
 		"IL equality (after renaming process-global literal ids) is taken as equal behaviour; textually different IL is decided by running natively (sample of at most 40)")
 	c.Finish(vl.Coverage{Evaluations: atomic.LoadInt64(&evals), Exhaustive: atomic.LoadInt64(&capped) == 0,
-		Rule: "for every base program (token list): every gap x every trivia of the 11-letter alphabet, each trivia in all gaps at once" +
+		Rule: "for every base program (token list): every gap x every trivia of the 16-letter alphabet, each trivia in all gaps at once" +
 			map[bool]string{true: "", false: ", and all pairs of single insertions (incl. ordered pairs in one gap) for 5 small programs"}[quick] +
 			"; distinct_nontrivial = variants compiled",
 		Bound: fmt.Sprintf("%d programs (%d accepted, %d rejected), %d variants", len(progs), nAcc, nRej, len(vars))})
